@@ -34,6 +34,7 @@
 //     Records, Stream Footer agree with each other and with the history;
 //   * no other fatal error is ever returned by lzma_code.
 #include "c12.h"
+#include <unistd.h>
 #include "common.h"   // liblzma internal: strm->internal->sequence (ISEQ_ERROR) to tell fatal errors apart
 
 typedef enum { K_STREAM, K_EASY, K_MT, K_RAW, K_BLOCK } kind_t;
@@ -605,6 +606,9 @@ int main(void)
 			tok[ntok++] = t;
 		}
 		if (ntok > 0) {
+			// watchdog: a case that takes longer than this hangs (the harness is killed by SIGALRM; the Python side
+			// then replays the lines one by one and reports the one that hangs)
+			alarm(240);
 			if (!strcmp(tok[0], "case")) run_case(tok, (int)ntok);
 			else printf("bad-op\n");
 			fflush(stdout);
